@@ -883,6 +883,30 @@ func c18Child(c *rt.Ctx, dir string) {
 		restore()
 		c.Serial(fmt.Sprintf("reread-too-long-errors-%d", setting), c18RereadKept)
 	}
+	// hostile inputs at the edges of readable memory (a stray read is a fault, reported with the input)
+	func() {
+		restore := c18ApplyLimit(0)
+		defer restore()
+		r := rt.NewRand(c.Seed, "C18/guarded", 0)
+		for _, pkg := range pkgs {
+			var texts []string
+			for len(texts) < 300 {
+				var t string
+				switch len(texts) % 3 {
+				case 0:
+					t = c18Valid(r, pkg)
+				case 1:
+					t = c18Hostile(r, pkg)
+				default:
+					t = c18Shaped(pkg, 1+len(texts)%70)
+				}
+				if len(t) > 0 && len(t) <= 2000 {
+					texts = append(texts, t)
+				}
+			}
+			guardedInputs(c, "C18", pkg, texts)
+		}
+	}()
 	c.Require("too-long-error-reread-after-limit-change", 1000)
 	for _, pkg := range pkgs {
 		c.Require("over-limit:"+pkg, 100)
